@@ -44,48 +44,81 @@ def insertKey (k : Rat) : List Rat → List Rat
 
 def sortedKeys (cp : List (Rat × Rat)) : List Rat := (cp.map Prod.fst).foldr insertKey []
 
+/-- one value of a row: dimensional (`R*v` in the chosen unit) or the plain number -/
+def fmtCpValue (tab : UnitTable) (R : QV) (rnd : Rat → Rat) (cu : Option String) (v : Rat) : Except FErr YVal :=
+  match cu with
+  | some u => fmtIn tab rnd (R.mul (.num v)) u
+  | none => .ok (.num v)
+
 /-- the rows of `Cp_data:` / `ND_Cp_data:` -/
 def cpRows (tab : UnitTable) (R : QV) (K : UnitQ) (rnd : Rat → Rat) (cp : List (Rat × Rat)) (Tu : String) (cu : Option String) :
     List Rat → Except FErr (List YVal)
   | [] => .ok []
-  | T :: rest => do
-    let t ← fmtIn tab rnd (withUnits T K) Tu
-    let v := (dlookup T cp).getD 0
-    let x ← match cu with
-      | some u => fmtIn tab rnd (R.mul (.num v)) u
-      | none => pure (.num v)
-    let r ← cpRows tab R K rnd cp Tu cu rest
-    .ok (.seq [t, x] :: r)
+  | T :: rest =>
+    match fmtIn tab rnd (withUnits T K) Tu with
+    | .error e => .error e
+    | .ok t =>
+      match fmtCpValue tab R rnd cu ((dlookup T cp).getD 0) with
+      | .error e => .error e
+      | .ok x =>
+        match cpRows tab R K rnd cp Tu cu rest with
+        | .error e => .error e
+        | .ok r => .ok (.seq [t, x] :: r)
+
+/-- lines 361-368: the reference enthalpy, if present -/
+def fmtH (tab : UnitTable) (R : QV) (K : UnitQ) (rnd : Rat → Rat) (c : Corr) (u : FmtUnits) :
+    Except FErr (List (String × YVal)) :=
+  match c.H with
+  | none => .ok []
+  | some h =>
+    match u.H with
+    | some hu =>
+      match fmtIn tab rnd ((R.mul (withUnits c.Tref K)).mul (.num h)) hu with
+      | .ok v => .ok [("H_ref", v)]
+      | .error e => .error e
+    | none => .ok [("ND_H_ref", YVal.num h)]
+
+/-- lines 370-376: the reference entropy, if present -/
+def fmtS (tab : UnitTable) (R : QV) (rnd : Rat → Rat) (c : Corr) (u : FmtUnits) : Except FErr (List (String × YVal)) :=
+  match c.S with
+  | none => .ok []
+  | some s =>
+    match u.S with
+    | some su =>
+      match fmtIn tab rnd (R.mul (.num s)) su with
+      | .ok v => .ok [("S_ref", v)]
+      | .error e => .error e
+    | none => .ok [("ND_S_ref", YVal.num s)]
+
+/-- lines 378-391: the table, if not empty -/
+def fmtCp (tab : UnitTable) (R : QV) (K : UnitQ) (rnd : Rat → Rat) (c : Corr) (u : FmtUnits) :
+    Except FErr (List (String × YVal)) :=
+  if c.cp.isEmpty then .ok [] else
+  match cpRows tab R K rnd c.cp u.T u.Cp (sortedKeys c.cp) with
+  | .ok rows => .ok [(match u.Cp with | some _ => "Cp_data" | none => "ND_Cp_data", YVal.seq rows)]
+  | .error e => .error e
+
+/-- lines 393-397: the range, if present -/
+def fmtRange (tab : UnitTable) (K : UnitQ) (rnd : Rat → Rat) (c : Corr) (u : FmtUnits) : Except FErr (List (String × YVal)) :=
+  match c.range with
+  | none => .ok []
+  | some (lo, hi) =>
+    match fmtIn tab rnd (withUnits lo K) u.T with
+    | .error e => .error e
+    | .ok a =>
+      match fmtIn tab rnd (withUnits hi K) u.T with
+      | .error e => .error e
+      | .ok b => .ok [("range", YVal.seq [a, b])]
 
 /-- `yaml_format(units)`: the mapping the written lines denote -/
 def yamlFormat (tab : UnitTable) (R : QV) (K : UnitQ) (rnd : Rat → Rat) (c : Corr) (u : FmtUnits) :
-    Except FErr (List (String × YVal)) := do
-  let Tq := withUnits c.Tref K
-  let tref ← fmtIn tab rnd Tq u.T
-  let hs ← match c.H with
-    | none => pure []
-    | some h => match u.H with
-      | some hu => do
-        let v ← fmtIn tab rnd ((R.mul Tq).mul (.num h)) hu
-        pure [("H_ref", v)]
-      | none => pure [("ND_H_ref", YVal.num h)]
-  let ss ← match c.S with
-    | none => pure []
-    | some s => match u.S with
-      | some su => do
-        let v ← fmtIn tab rnd (R.mul (.num s)) su
-        pure [("S_ref", v)]
-      | none => pure [("ND_S_ref", YVal.num s)]
-  let cps ← if c.cp.isEmpty then pure [] else do
-    let rows ← cpRows tab R K rnd c.cp u.T u.Cp (sortedKeys c.cp)
-    pure [(match u.Cp with | some _ => "Cp_data" | none => "ND_Cp_data", YVal.seq rows)]
-  let rs ← match c.range with
-    | none => pure []
-    | some (lo, hi) => do
-      let a ← fmtIn tab rnd (withUnits lo K) u.T
-      let b ← fmtIn tab rnd (withUnits hi K) u.T
-      pure [("range", YVal.seq [a, b])]
-  pure ([("T_ref", tref)] ++ hs ++ ss ++ cps ++ rs)
+    Except FErr (List (String × YVal)) :=
+  fmtIn tab rnd (withUnits c.Tref K) u.T >>= fun tref =>
+  fmtH tab R K rnd c u >>= fun hs =>
+  fmtS tab R rnd c u >>= fun ss =>
+  fmtCp tab R K rnd c u >>= fun cps =>
+  fmtRange tab K rnd c u >>= fun rs =>
+  .ok ([("T_ref", tref)] ++ hs ++ ss ++ cps ++ rs)
 
 /-- write, then load the written entry (no units block: every dimensional value carries its unit) -/
 def roundTrip (tab : UnitTable) (R : QV) (K : UnitQ) (rnd : Rat → Rat) (c : Corr) (u : FmtUnits) :
